@@ -75,3 +75,54 @@ Example C12_nonvacuous :
   exists a fb, key_loop (fun l => l) true (sort_desc [cA; cB; cC]) (sort_desc [cA; cB; cC]) [] None = Ok (a, fb) /\
                dis_keys a fb [11; 12] = Ok 2 /\ dis_keys a fb [12] = Ok 3 /\ dis_keys a fb [10; 11] = Ok 1.
 Proof. eexists. eexists. vm_compute. repeat split. Qed.
+
+(* 5. "required" as the source reads it (Model/DisambigSrc.v).  With the reading T1 finds in disambiguators.py today -- a default
+      FACTORY is a default -- what the disambiguator takes for required is exactly what no valid payload leaves out, so theorem 1
+      applies to every valid payload of every member: it is attributed to that member and to no other. *)
+From V.Model Require Import DisambigSrc.
+Lemma read_required_is_truly_required f : read_required true f = truly_required f.
+Proof. unfold read_required, truly_required. cbn. reflexivity. Qed.
+
+Lemma valid_payload_is_payload_of (c : sclass) (keys : list N) :
+  valid_payload c keys = true -> payload_of true (read_class true c) keys.
+Proof.
+  unfold valid_payload. intros H. apply andb_prop in H. destruct H as [H1 H2]. split.
+  - intros n Hn. unfold usable_key in Hn. cbn [read_class dc_fields] in Hn. apply existsb_exists in Hn.
+    destruct Hn as (df & Hin & E). apply in_map_iff in Hin. destruct Hin as (f & Ef & Hf). subst df.
+    cbn [read_field df_name df_required df_init negb orb] in E.
+    apply andb_prop in E. destruct E as [E Ei]. apply andb_prop in E. destruct E as [En Er].
+    apply N.eqb_eq in En. rewrite read_required_is_truly_required in Er.
+    rewrite forallb_forall in H1. specialize (H1 f Hf). rewrite Er, Ei in H1. cbn in H1.
+    subst n. apply mem_N_In. exact H1.
+  - intros n Hn. rewrite forallb_forall in H2. specialize (H2 n Hn). apply mem_N_In in H2.
+    unfold names. cbn [read_class dc_fields]. rewrite map_map. cbn [read_field df_name]. exact H2.
+Qed.
+
+Theorem C12_valid_payloads_never_wrong :
+  forall (choose : list N -> list N) (classes : list sclass) (a : list (N * N)) (fb : option N),
+    src_dis_skip_noninit = true -> src_dis_factory_is_default = true ->
+    (forall l x, In x (choose l) -> In x l) ->
+    NoDup (ids (map (read_class src_dis_factory_is_default) classes)) ->
+    key_loop choose src_dis_skip_noninit (sort_desc (map (read_class src_dis_factory_is_default) classes))
+             (sort_desc (map (read_class src_dis_factory_is_default) classes)) [] None = Ok (a, fb) ->
+    forall c keys, In c classes -> valid_payload c keys = true -> dis_keys a fb keys = Ok (sc_id c).
+Proof.
+  intros choose classes a fb Es Ef Hc Hnd Hk c keys Hin Hv. rewrite Es, Ef in *.
+  change (sc_id c) with (dc_id (read_class true c)).
+  eapply C12_keys_never_wrong; [exact Hc | exact Hnd | exact Hk | now apply in_map | now apply valid_payload_is_payload_of].
+Qed.
+Print Assumptions C12_valid_payloads_never_wrong.
+
+(* ... and with the other reading (finding F41 as it was: only `default` is looked at) the statement is false: Plain(a) and
+   WithFac(a, b = default_factory) -- the hook IS created, b being taken for required, and the valid payload {a} of a WithFac
+   instance is attributed to Plain *)
+Definition sPlain := {| sc_id := 1; sc_fields := [ {| sf_name := 10; sf_default_value := false; sf_default_factory := false; sf_init := true; sf_lit := None |} ] |}.
+Definition sWithFac := {| sc_id := 2; sc_fields := [ {| sf_name := 10; sf_default_value := false; sf_default_factory := false; sf_init := true; sf_lit := None |};
+                                                     {| sf_name := 11; sf_default_value := false; sf_default_factory := true; sf_init := true; sf_lit := None |} ] |}.
+Theorem C12_factory_read_as_required_refuted :
+  exists a fb, key_loop (fun l => l) true (sort_desc (map (read_class false) [sPlain; sWithFac])) (sort_desc (map (read_class false) [sPlain; sWithFac])) [] None = Ok (a, fb)
+               /\ valid_payload sWithFac [10] = true /\ dis_keys a fb [10] = Ok (sc_id sPlain).
+Proof. eexists. eexists. vm_compute. repeat split. Qed.
+Example C12_factory_default_refused_today :
+  is_ok (create_dis (fun l => l) src_dis_skip_noninit true (map (read_class src_dis_factory_is_default) [sPlain; sWithFac])) = false.
+Proof. vm_compute. reflexivity. Qed.
